@@ -34,7 +34,7 @@ PROPS = {
         assumptions=["htslib writes what the CSI/tabix specifications say (checked differentially)", "gzip decoding (Python gzip) is outside the model"],
     ),
     "C10": dict(
-        units=["GenDtype", "GenSchema"],
+        units=["GenDtype", "GenSchema", "GenInitArray"],
         genextract="Dtype",
         props_files=["Props/C10.v"],
         driver="c10",
